@@ -35,6 +35,7 @@ type Spec struct {
 	LogKeep int                 `json:"log_keep"`
 	GMP     string              `json:"-"` // GOMAXPROCS of the worker ("" = 1)
 	Batch   int                 `json:"batch"`
+	Variant int                 `json:"variant"`
 }
 
 type Result struct {
@@ -61,6 +62,7 @@ type Result struct {
 	SubNontriv int                 `json:"sub_nontrivial"`
 	Sigs       []string            `json:"sigs,omitempty"`
 	SubSeed    uint64              `json:"sub_seed,omitempty"`
+	Digest     string              `json:"digest,omitempty"`
 	// filled by the driver
 	exit   int
 	stderr string
@@ -171,17 +173,19 @@ type propDef struct {
 	ThorSecs  int
 	Engine    string
 	Batch     int // sub-runs per worker process (component worlds)
+	Variants  int // >1: every seed is run under this many transport segmentations and the digests are compared (C07)
 }
 
 var props = map[string]propDef{
-	"C01": {"C01", "proxy", 40, 600, "W-proxy", 0},
-	"C02": {"C02", "proxy", 40, 600, "W-proxy", 0},
-	"C03": {"C03", "proxy", 40, 600, "W-proxy", 0},
-	"C10": {"C10", "proxy", 40, 600, "W-proxy", 0},
-	"C09": {"C09", "proxy", 40, 600, "W-proxy", 0},
-	"C05": {"C05", "lb", 30, 600, "W-lb", 200},
-	"C06": {"C06", "lb", 30, 600, "W-lb", 50},
-	"C16": {"C16", "health", 30, 600, "W-health", 100},
+	"C01": {"C01", "proxy", 40, 600, "W-proxy", 0, 0},
+	"C02": {"C02", "proxy", 40, 600, "W-proxy", 0, 0},
+	"C03": {"C03", "proxy", 40, 600, "W-proxy", 0, 0},
+	"C10": {"C10", "proxy", 40, 600, "W-proxy", 0, 0},
+	"C09": {"C09", "proxy", 40, 600, "W-proxy", 0, 0},
+	"C07": {"C07", "proxy", 40, 600, "W-proxy", 0, 4},
+	"C05": {"C05", "lb", 30, 600, "W-lb", 200, 0},
+	"C06": {"C06", "lb", 30, 600, "W-lb", 50, 0},
+	"C16": {"C16", "health", 30, 600, "W-health", 100, 0},
 }
 
 // ---- known findings ----
@@ -561,8 +565,20 @@ func cmdCheck(args []string) int {
 				}
 				seed := sim.Mix(base, i)
 				r := runWorker(Spec{Prop: pd.ID, World: pd.World, Seed: seed, Tier: *tier, Batch: pd.Batch})
+				var extra []*Result
+				for v := 1; v < pd.Variants && r.Infra == ""; v++ {
+					rv := runWorker(Spec{Prop: pd.ID, World: pd.World, Seed: seed, Tier: *tier, Variant: v})
+					if rv.Infra == "" && rv.Digest != r.Digest {
+						rv.Violations = append(rv.Violations, sim.Violation{Property: pd.ID, Class: "segmentation_dependent",
+							Detail: fmt.Sprintf("seed %d: with transport segmentation variant %d the upstreams/clients saw something else than with variant 0 (digest %s vs %s)", seed, v, rv.Digest, r.Digest)})
+					}
+					extra = append(extra, rv)
+				}
 				mu.Lock()
 				a.add(seed, r, id)
+				for _, rv := range extra {
+					a.add(seed, rv, id)
+				}
 				mu.Unlock()
 			}
 		}()
@@ -589,6 +605,19 @@ func cmdCheck(args []string) int {
 	for _, k := range keys {
 		vc := a.viol[k]
 		nViol++
+		if vc.class == "segmentation_dependent" {
+			// a property of a pair of runs: nothing to shrink within one run; the replay
+			// re-runs the seed under every variant and compares the digests again
+			rf := &sim.ReplayFile{Property: vc.prop, World: pd.World, Tier: *tier, Seed: vc.seed, Class: vc.class, Detail: vc.detail, Note: "replay = run this seed under all transport variants and compare digests"}
+			dir := filepath.Join(root, "replays", vc.prop)
+			os.MkdirAll(dir, 0o755)
+			path := filepath.Join(dir, fmt.Sprintf("%s-%d.json", sanitize(vc.class), vc.seed))
+			rf.Save(path)
+			lines = append(lines, fmt.Sprintf("VIOLATION property=%s replay=%s", vc.prop, path), "  "+vc.detail)
+			replayInfo = append(replayInfo, map[string]any{"property": vc.prop, "class": vc.class, "replay": path, "runs": vc.count})
+			exit = 1
+			continue
+		}
 		min, evals := shrink(pd, vc.prop, vc.class, vc.seed, vc.res.Choices, 400)
 		// confirm: replay the minimised vector twice in fresh processes
 		r1 := runWorker(Spec{Prop: pd.ID, World: pd.World, Seed: vc.seed, Choices: min, Replay: true, LogKeep: 3000})
@@ -730,7 +759,7 @@ func writeEvidence(pd propDef, tier string, seed uint64, a *agg, runWall, wall f
 func faultsOnly(m map[string]int, features bool) map[string]int {
 	o := map[string]int{}
 	for k, v := range m {
-		if strings.HasPrefix(k, "w:") == features {
+		if (strings.HasPrefix(k, "w:") || strings.HasPrefix(k, "race:")) == features {
 			o[k] = v
 		}
 	}
@@ -761,6 +790,25 @@ func cmdReplay(args []string) int {
 	world := rf.World
 	if world == "" {
 		world = pd.World
+	}
+	if rf.Class == "segmentation_dependent" {
+		var d0 string
+		bad := false
+		for v := 0; v < pd.Variants; v++ {
+			rv := runWorker(Spec{Prop: rf.Property, World: world, Seed: rf.Seed, Variant: v})
+			fmt.Printf("variant %d: digest=%s infra=%q violations=%d\n", v, rv.Digest, rv.Infra, len(rv.Violations))
+			if v == 0 {
+				d0 = rv.Digest
+			} else if rv.Digest != d0 {
+				bad = true
+			}
+		}
+		if bad {
+			fmt.Printf("VIOLATION property=%s replay=%s\n", rf.Property, args[0])
+			return 1
+		}
+		fmt.Println("replay did not reproduce the violation")
+		return 0
 	}
 	r := runWorker(Spec{Prop: rf.Property, World: world, Seed: rf.Seed, Choices: rf.Choices, Replay: true, LogKeep: 5000})
 	for _, l := range r.Log {
